@@ -318,6 +318,11 @@ impl<'a> Explorer<'a> {
         let want_c06 = o.has("C06") && semantic_free && !m.has_choice && !m.has_true_pred && conflict_free;
         let mut full_alpha = self.tok_bytes.clone();
         full_alpha.extend(self.trivia_bytes.iter().copied());
+        let lang = if want_c04 || want_c06 {
+            Some(vmodel::lang::Lang::compute(&m.g, &m.arena, o.len.min(4)))
+        } else {
+            None
+        };
         for (ek, &erule) in entries.iter().enumerate() {
             let start_nt = m.bnf.rule_nt[erule];
             if want_inv {
@@ -340,6 +345,20 @@ impl<'a> Explorer<'a> {
                     }
                     if want_c04 || want_c06 {
                         let rec = earley.recognise(start_nt, &self.terminals(&input));
+                        // oracle cross-check: Earley membership = bounded-language membership (R-LANG)
+                        if let Some(lang) = &lang {
+                            if input.len() <= lang.max_len {
+                                let s: Vec<u8> = self.terminals(&input).iter().map(|t| *t as u8).collect();
+                                if lang.rule[erule].contains(&s) != rec.accepted {
+                                    println!(
+                                        "MACHINERY reference recognisers disagree on `{}` for job grammar {}",
+                                        String::from_utf8_lossy(&input),
+                                        vmodel::sexp::to_sexp(&m.g)
+                                    );
+                                }
+                                self.tally.nontrivial("oracle_crosschecks");
+                            }
+                        }
                         if want_c04 {
                             self.tally.eval("C04");
                             if rec.accepted {
